@@ -250,7 +250,13 @@ class MemoryFileSystem(FileSystem):
     self._prefix = prefix
 
   def _internal_path(self, path: Union[str, os.PathLike[str]]) -> str:
-    return '/' + resolve_path(path).lstrip(self._prefix)
+    # NOTE: remove the prefix as a whole. `str.lstrip` would strip any leading
+    # characters that appear in the prefix (e.g. '/mem/m.json' -> '.json').
+    path = resolve_path(path)
+    prefix = self._prefix.rstrip('/')
+    if path == prefix or path.startswith(prefix + '/'):
+      path = path[len(prefix):]
+    return '/' + path.lstrip('/')
 
   def _locate(self, path: Union[str, os.PathLike[str]]) -> Any:
     current = self._root
